@@ -59,10 +59,12 @@ def gen_history(rng, depth, length):
     open_objs: list[int] = []
 
     def rand_kw():
+        # a named setting may take ANY of its values, including the default one and the "falsy" ones
+        # (solver_throw=False, solver_options={}): naming a setting always overrides the enclosing value
         kw = {}
         for name, nvals in (('solver', 3), ('throw', 2), ('options', 3), ('callback', 3)):
-            if rng.random() < 0.4:
-                kw[name] = rng.randint(1, nvals - 1) if name != 'throw' else 1
+            if rng.random() < 0.45:
+                kw[name] = rng.randint(0, nvals - 1)
         return kw
 
     def block(d, budget):
@@ -147,7 +149,7 @@ def one_case(ctx: Ctx, stream: str, i: int, depth: int) -> None:
             if 'solver' in kw:
                 out['solver'] = solvers[kw['solver']]
             if 'throw' in kw:
-                out['solver_throw'] = True
+                out['solver_throw'] = bool(kw['throw'])
             if 'options' in kw:
                 out['solver_options'] = options[kw['options']]
             if 'callback' in kw:
